@@ -315,7 +315,8 @@ def oracle_C02(rs, n, ctx):
             R.violate(f"C02:{kind}-bound", f"error {errs} cell-crossing times exceeds first-order constant {C}", rep)
         # absolute error decreases under refinement: err2*(h/2) < err1*h  (allow the plateau of tiny errors)
         # (errors of a few percent of a cell are at the noise level of where the nodes fall: allow 5% of a fine cell)
-        if errs[1] * 0.5 > errs[0] * 1.02 + 0.05 * 0.5:
+        # and the maximum is taken over more nodes on the finer grid: alarm only if the absolute error grows by half)
+        if errs[1] * 0.5 > errs[0] * 1.5 + 0.05 * 0.5:
             R.violate(f"C02:{kind}-refine", f"error grows under refinement: {errs[0]}*h -> {errs[1]}*h/2", rep)
     return R
 
